@@ -284,4 +284,4 @@ fn long_counts(rep: &Report) {
     });
 }
 
-pub const RULE: &str = "{movs,lods,stos,cmps,scas} x {byte,word} x DF x prefix {none, rep, repe/repz, repne/repnz} x every CX in 0..64 (thorough: sampled up to 0xFFFF) from hostile DS/ES/SI/DI (overlap, SI/DI crossing 0xFFFF, DS != ES, segments straddling 2^20), memory crafted so that REPE/REPNE stop at every position; the emitted line is re-issued while the interpreter answers REPEAT (the driver's protocol) and the final whole state is compared with the reference REP loop. Overlap is produced both inside one segment (DI = SI-2..SI+2) and physically through different segments ((ES-DS)*16+DI = SI-2..SI+2). Distinct = (instruction, CX, DF, accept-set member, number of issues).";
+pub const RULE: &str = "{movs,lods,stos,cmps,scas} x {byte,word} x DF x prefix {none, rep, repe/repz, repne/repnz} x every CX in 0..64 (thorough: sampled up to 0xFFFF) from hostile DS/ES/SI/DI (overlap, SI/DI crossing 0xFFFF, DS != ES, segments straddling 2^20), memory crafted so that REPE/REPNE stop at every position; the emitted line is re-issued while the interpreter answers REPEAT (the driver's protocol) and the final whole state is compared with the reference REP loop. Overlap is produced both inside one segment (DI = SI-2..SI+2) and physically through different segments ((ES-DS)*16+DI = SI-2..SI+2). Distinct = (instruction, CX, DF, accept-set member, number of issues). Lock-step and mixed-family histories; CLI string programs run free, under -i and with the trap flag set (every prompt answered n).";
